@@ -310,6 +310,7 @@ def doc_stream(ctx, res, n):
         s.name = cc.StringField(default="n")
         s.port = cc.IntField(default=80)
         s.include = cc.IncludeField(startdir=tmp)
+        s.include2 = cc.IncludeField(startdir=tmp)
         s.db.host = cc.StringField(default="h")
         s.db.include = cc.IncludeField(startdir=tmp)
         # a config-type sub-configuration (with an include field of its own) and a list of configurations, declared BEFORE and AFTER the
@@ -344,6 +345,17 @@ def doc_stream(ctx, res, n):
                                                                                   late={"include": "nope"}))})
             # (a document that parses, resolves its includes and then holds a value some field rejects is not among the operations the
             #  property names: such a load may stop half-way)
+            # a first include that resolves and parses, then a second one that does not (missing / exists but cannot be parsed / a directory)
+            okname, badname = "first-ok." + fmt, "second-broken." + fmt
+            with open(os.path.join(tmp, okname), "wb") as fh:
+                fh.write(mk(cfg, {"port": 81}))
+            with open(os.path.join(tmp, badname), "wb") as fh:
+                fh.write(good[: max(1, len(good) // 3)] if fmt != "yaml" else b"a: [1, 2\n b: }")
+            docs.update({"second-include-missing": mk(cfg, {"name": "x", "include": okname, "include2": "nope." + fmt}),
+                         "second-include-unparsable": mk(cfg, {"name": "x", "include": okname, "include2": badname}),
+                         "first-include-unparsable": mk(cfg, {"name": "x", "include": badname}),
+                         "second-include-a-directory": mk(cfg, {"name": "x", "include": okname, "include2": "adir"}),
+                         "root-include-ok-nested-missing": mk(cfg, {"name": "x", "include": okname, "db": {"include": "nope"}})})
             if fmt == "xml":
                 docs["wrong-root"] = good.replace(b"<config", b"<other").replace(b"</config", b"</other")
             for kind, doc in docs.items():
